@@ -8,7 +8,7 @@ NATIVE_FUNCTIONS = [f"{DM}:polygonal_land_constraint", "ghedesigner.shape:point_
 NATIVE_CASES = {"quick": 25, "thorough": 1500}
 NATIVE_LIMIT_S = {"quick": 60, "thorough": 1500}
 CASE_TIMEOUT = 100
-LEVEL = "proof"
+LEVEL = "other"
 ASSUMPTIONS = [A_REAL, A_ENGINE,
                "point_polygon_check is used through its caller view PPC(polygon, x, y, tol): a function of its arguments (pure function; its classification is proved in C16)",
                "builtin sorted: stable permutation ordered by key (trusted model)",
@@ -22,6 +22,6 @@ EXPLANATION = ("remove_cutout proved, for coordinate lists and polygon lists of 
                "(property: inside or on-edge of some polygon; no-go: neither inside nor on-edge of any). polygonal_land_constraint: invariants over the three loops give: every borehole of every "
                "emitted field is in a property polygon (within the 0.01 edge tolerance) and outside/off every no-go polygon; every emitted list is ordered by non-decreasing count (reorder_domain "
                "via the sorted model). determine_largest_rectangle: bounding box of all outlines.")
-LEVEL_TEXT = ("Deductive proof for all polygons, all grids and all numbers of outlines/no-go zones of the containment clause and the ordering clause; exact sub-list characterisation of remove_cutout; "
+LEVEL_TEXT = ("[level other because the converse clause (no clearly-inside grid borehole is dropped) is proved for remove_cutout and lifted through polygonal_land_constraint's nested loops only by the bounded run-time contract] Deductive proof for all polygons, all grids and all numbers of outlines/no-go zones of the containment clause and the ordering clause; exact sub-list characterisation of remove_cutout; "
               "the lifted converse clause is cross-checked by bounded runs with an exact rational oracle.")
 LEVEL_NOTE = "Trusted: pyvc, z3, A-REAL, sorted model, caller view of point_polygon_check (C16)."
